@@ -107,12 +107,18 @@ impl BigNumber {
     }
 
     pub fn from_dec(dec: &str) -> ClResult<BigNumber> {
+        if !super::is_numeral(dec, 10) {
+            return Err(err_msg!("Invalid decimal number"));
+        }
         Ok(BigNumber {
             bn: BigInt::from_str_radix(dec, 10)?,
         })
     }
 
     pub fn from_hex(hex: &str) -> ClResult<BigNumber> {
+        if !super::is_numeral(hex, 16) {
+            return Err(err_msg!("Invalid hexadecimal number"));
+        }
         Ok(BigNumber {
             bn: BigInt::from_str_radix(hex, 16)?,
         })
